@@ -13,12 +13,14 @@ ESTIMATORS = ["gaussian", "knn", "kde", "poisson", "geometric_knn"]
 BUDGET = 1e-9
 
 
-def make_system(info, rng):
+def make_system(info, rng, stratum=None):
     if info == "geometric_knn":
         n, T = 2, 100
     else:
         n, T = int(rng.integers(2, 5)), int(rng.integers(100, 161))
     L = int(rng.integers(1, 4))
+    if stratum == "short-wide" and info != "geometric_knn":     # corner of the quantifier: many lagged predictors, shortest admissible series
+        n, L, T = int(rng.integers(3, 5)), 3, int(rng.integers(100, 104))
     u = int(rng.integers(0, n)); v = int((u + 1 + rng.integers(0, n - 1)) % n)
     tau = int(rng.integers(1, L + 1))
     if info == "poisson":
@@ -34,12 +36,13 @@ def make_system(info, rng):
 
 
 def one_run(args):
-    info, method, seed, nsh = args
+    info, method, seed, nsh = args[:4]
+    stratum = args[4] if len(args) > 4 else None
     from props import disc_common as DC
 
     warnings.simplefilter("ignore")
     rng = np.random.default_rng(seed)
-    x, n, T, L, u, v, tau = make_system(info, rng)
+    x, n, T, L, u, v, tau = make_system(info, rng, stratum)
     o = DC.observe(x.copy(), None, method=method, information=info, max_lag=L, n_shuffles=nsh, k_means=5)
     if "error" in o:
         return {"error": o["error"], "seed": seed}
@@ -65,7 +68,7 @@ def one_run(args):
                     acc = bool(fwd[0]["result"]["Pass"])
                     bwd_ok = bool(rest and rest[0]["result"]["Pass"])
                     premise = acc and bwd_ok
-    return {"present": bool(present), "largest": bool(largest), "premise": premise, "n": n, "T": T, "L": L, "u": u, "v": v, "tau": tau, "seed": seed,
+    return {"stratum": stratum, "nsh": nsh, "present": bool(present), "largest": bool(largest), "premise": premise, "n": n, "T": T, "L": L, "u": u, "v": v, "tau": tau, "seed": seed,
             "edges_into_v": [(a, l) for a, l, c in into_v]}
 
 
@@ -98,12 +101,26 @@ def check(run, driver):
     for info, method, m, nsh in plans:
         for _ in range(m):
             tasks.append((info, method, int(rng.integers(0, 2**31)), nsh))
+    # strata at the corners of the quantifier (each judged on its own as well)
+    strata = []
+    for info in ("gaussian", "knn", "kde"):
+        for method in ("information_lasso", "lasso"):
+            for _ in range(16 if thorough else 6):
+                strata.append((info, method, int(rng.integers(0, 2**31)), 40, "short-wide"))
+    for method in ("standard", "alternative"):
+        for _ in range(16 if thorough else 5):
+            strata.append(("gaussian", method, int(rng.integers(0, 2**31)), int(rng.choice([10, 15])), "few-shuffles"))
+    tasks += strata
     with ProcessPoolExecutor(16) as ex:
         results = list(ex.map(one_run, tasks, chunksize=1))
     by = {}
+    bystr = {}
     for t, r in zip(tasks, results):
-        by.setdefault((t[0], t[1]), []).append(r)
-    ntests = 2 * len(ESTIMATORS) + 4
+        if len(t) > 4:
+            bystr.setdefault((t[0], t[4]), []).append((t, r))
+        else:
+            by.setdefault((t[0], t[1]), []).append(r)
+    ntests = 2 * len(ESTIMATORS) + 4 + 4
     table = []
     for info in ESTIMATORS:
         pooled = []
@@ -141,6 +158,17 @@ def check(run, driver):
             if tail2 < BUDGET / ntests:
                 run.prop_fail("the planted edge does not carry the largest conditional information among the edges into v often enough", {"estimator": info, "runs": m, "largest": big},
                               {"clause": "largest", "estimator": info}, {"binomial_lower_tail": tail2})
+    for (info, stratum), trs in sorted(bystr.items()):
+        rs = [r for _, r in trs if "error" not in r]
+        for t, r in trs:
+            run.case(f"{info}-{stratum}", [info, stratum, t[2]], True)
+        m = len(rs); succ = sum(1 for r in rs if r.get("present"))
+        tail = binom_tail(m, 0.02, m - succ) if m else 1.0
+        table.append({"estimator": info, "stratum": stratum, "runs": m, "recovered": succ, "required_rate": 0.98, "binomial_lower_tail": tail})
+        if tail < BUDGET / ntests:
+            bad = next(r for r in rs if not r.get("present"))
+            run.prop_fail("recovery frequency of the planted edge is below the required rate in a corner of the quantifier", {"estimator": info, "stratum": stratum, "runs": m, "recovered": succ, "example_failure": bad},
+                          {"clause": "frequency", "estimator": info, "stratum": stratum}, {"binomial_lower_tail": tail})
     run.extra["recovery_table"] = table
     run.extra["explanation"] = (
         "Partial: planted_recovered (Lean, CEProofs/C05.lean) says that a planted column which is the strict arg-max while undecided and passes its "
